@@ -396,8 +396,10 @@ func TestC17Client(t *testing.T) {
 				it := scen.AnsItem{Tag: tg}
 				if rapid.Bool().Draw(t, "iserr") {
 					row := rapid.SampledFrom(rows).Draw(t, "row")
-					text := rapid.SampledFrom([]string{row[0] + fmt.Sprint(rapid.IntRange(0, 100000).Draw(t, "param")) + row[1], "SOME_UNKNOWN_ERROR", "AUTH_KEY_UNREGISTERED", "100%_%d_%s", row[0] + "abc" + row[1], "FLOOD_WAIT_"}).Draw(t, "text")
-					if strings.HasPrefix(text, "PHONE_MIGRATE_") {
+					text := rapid.SampledFrom([]string{row[0] + fmt.Sprint(rapid.IntRange(0, 100000).Draw(t, "param")) + row[1], "SOME_UNKNOWN_ERROR", "AUTH_KEY_UNREGISTERED", "100%_%d_%s", row[0] + "abc" + row[1], "FLOOD_WAIT_",
+						// the migration text with a parameter that is no data-centre number: an ordinary error for its caller
+						"PHONE_MIGRATE_X", "PHONE_MIGRATE_", "PHONE_MIGRATE_abc", "PHONE_MIGRATE_99999999999999999999", "PHONE_MIGRATE_2x"}).Draw(t, "text")
+					if strings.HasPrefix(text, "PHONE_MIGRATE_") && decimal.MatchString(strings.TrimPrefix(text, "PHONE_MIGRATE_")) && len(text) < 24 {
 						text = "USER_MIGRATE_" + strings.TrimPrefix(text, "PHONE_MIGRATE_")
 					}
 					code := int32(rapid.SampledFrom([]int{303, 400, 401, 420, 500, -503}).Draw(t, "code"))
@@ -419,7 +421,9 @@ func TestC17Client(t *testing.T) {
 				}
 			}
 			// the migrating request is told to go to another data centre while the other calls are still in flight
-			steps = append(steps, scen.Step{Op: "answer", Items: []scen.AnsItem{{Tag: c.Migrate, ErrCode: 303, ErrText: fmt.Sprintf("PHONE_MIGRATE_%d", c.DC)}}})
+			// the text decides, whatever code comes with it
+			mcode := rapid.SampledFrom([]int32{303, 303, 400, 500, 0, -503}).Draw(t, "migrate-code")
+			steps = append(steps, scen.Step{Op: "answer", Items: []scen.AnsItem{{Tag: c.Migrate, ErrCode: mcode, ErrText: fmt.Sprintf("PHONE_MIGRATE_%d", c.DC)}}})
 			if c.Configured {
 				steps = append(steps, scen.Step{Op: "await-requests", N: n}) // repeated at dc-7: again n unanswered
 				for _, tg := range order {
